@@ -664,8 +664,9 @@ type GoCompiler struct {
 	loopInfo              []*goLoopInfo
 	nativeCallsToOptimise []*nativeCall
 	globalData            *nativeGlobalData
-	callFrameStartOffset  int // call frame definition start offset
-	callFrameEndOffset    int // call frame definition end offset
+	callFrameStartOffset  int  // call frame definition start offset
+	callFrameEndOffset    int  // call frame definition end offset
+	callFrameRemoved      bool // the call frame definition has been removed by optimiseNativeCalls
 	goLabelCounter        int
 	loopCounter           int // increments when a loop is entered, does not decrement ever
 	tmpLocalCounter       int
@@ -986,11 +987,18 @@ func (c *GoCompiler) optimiseNativeCalls() bool {
 		}
 	}
 
+	if c.callFrameRemoved {
+		// the call frame has already been cut out of the generated source;
+		// the offsets are stale and must not be used again
+		return true
+	}
+
 	originalBytes := c.packageBuff.Bytes()
 	var newBuff bytes.Buffer
 	newBuff.Write(originalBytes[:c.callFrameStartOffset])
 	newBuff.Write(originalBytes[c.callFrameEndOffset:])
 	c.packageBuff = newBuff
+	c.callFrameRemoved = true
 	return true
 }
 
